@@ -267,8 +267,12 @@ def _collectors(ctx: Ctx, ex: Extractor, rels) -> set[str]:
         m = ctx.p.module(rel)
         for q, fi in m.functions.items():
             for a in fi.node.args.args:
-                ann = norm(a.annotation) if a.annotation is not None else ""
-                if "Element" in ann and fn_emits(fi, a.arg, ()):
+                # an annotation decides when there is one; an unannotated parameter is tried as a node (a parameter that is not
+                # a node has no .text / .tail / .iter use and emits nothing)
+                ann = norm(a.annotation) if a.annotation is not None else None
+                if a.arg in ("self", "cls") or (ann is not None and "Element" not in ann):
+                    continue
+                if fn_emits(fi, a.arg, ()):
                     out.add(fi.key)
     for n in OPAQUE:
         out.add(n)
